@@ -338,7 +338,9 @@ def _run_sequence(ops, c0, send_ids) -> None:
     seen = set()
     n_by_kind = {True: 0, False: 0}
     for (ci, own) in ops:
-        headers = {"X-Request-ID": f"own-{len(rec.requests)}"} if own else None
+        # a caller-supplied id is whatever the caller put there: also an empty string or "0" (values a truthiness test drops)
+        own_id = [f"own-{len(rec.requests)}", "", "0"][(len(rec.requests) + ci) % 3]
+        headers = {"X-Request-ID": own_id} if own else None
         snap = dict(headers) if headers else None
         # every verb has its own entry point on the connection objects: rotate through them (patch first)
         verb = (["patch", "get", "post", "delete", "put"] if own else ["get", "patch", "post", "delete", "put"])[n_by_kind[bool(own)] % 5]
